@@ -39,6 +39,7 @@ func runC18(c *core.Ctx, r *core.Reporter) {
 	c18conv(c, r)
 	c18reuse(c, r)
 	c18converter(c, r)
+	c18mappair(c, r)
 }
 
 // c18conv: in the Go data bridge an integer becomes a Lisp integer through value-preserving conversions only.
@@ -682,4 +683,92 @@ func c18converter(c *core.Ctx, r *core.Reporter) {
 		}
 		r.Decide(!miss, rule, core.SSAName(fn), c.Pos(pos), fmt.Sprintf("some path returns without assigning the converter: %v", miss))
 	}
+}
+
+// c18mappair: in the Go data bridge a map is an association list whose entries are pairs (key . value) - a
+// two element List whose second element is a slip.Tail - whatever the value is. The bag functions tell a JSON
+// object from an array by that pair, so the map arm of SimpleObject must build every entry with a Tail and the
+// converter back (the function of pkg/bag that builds a Go map from a List) must test for it: writer and reader
+// of one convention. Building the entry with the list-normalising constructor made {a:[1 2]} converted to native
+// data and back read [[a 1 2]].
+func c18mappair(c *core.Ctx, r *core.Reporter) {
+	const rule = "C18.mappair"
+	r.Rule(rule, "the map arm of slip.SimpleObject builds every entry as a two element list whose second element is a slip.Tail (the pair that marks a JSON object's member), and the function of pkg/bag that builds a Go map from a Lisp list type-tests elements against slip.Tail: both sides of the bridge use the same marker", 2)
+	so := c.SSAFunc(c.LookupFunc("", "SimpleObject"))
+	if so == nil {
+		r.Undecided(rule, "slip.SimpleObject", "-", "anchor does not resolve")
+		return
+	}
+	// entries built inside a range over a map
+	n, withTail := 0, 0
+	for _, b := range so.Blocks {
+		for _, in := range b.Instrs {
+			al, ok := in.(*ssa.Alloc)
+			if !ok {
+				continue
+			}
+			arr, ok := al.Type().(*types.Pointer).Elem().Underlying().(*types.Array)
+			if !ok || arr.Len() != 2 || !core.IsNamed(arr.Elem(), core.SlipPath, "Object") {
+				continue
+			}
+			// first element a String converted from a map key (range over map): accept any String key
+			var e0, e1 ssa.Value
+			for _, rf := range *al.Referrers() {
+				ia, ok := rf.(*ssa.IndexAddr)
+				if !ok || ia.Referrers() == nil {
+					continue
+				}
+				k, ok := ia.Index.(*ssa.Const)
+				if !ok {
+					continue
+				}
+				for _, r2 := range *ia.Referrers() {
+					if st, ok := r2.(*ssa.Store); ok {
+						if k.Int64() == 0 {
+							e0 = st.Val
+						} else {
+							e1 = st.Val
+						}
+					}
+				}
+			}
+			mi0, ok := e0.(*ssa.MakeInterface)
+			if !ok || !core.IsNamed(mi0.X.Type(), core.SlipPath, "String") || e1 == nil {
+				continue
+			}
+			n++
+			if mi1, ok := e1.(*ssa.MakeInterface); ok && core.IsNamed(mi1.X.Type(), core.SlipPath, "Tail") {
+				withTail++
+			}
+		}
+	}
+	r.Decide(n > 0 && n == withTail, rule, "slip.SimpleObject|map entries", c.Pos(so.Pos()), fmt.Sprintf("entries built with a string key: %d, of which with a Tail as second element: %d", n, withTail))
+	// the reader side: a function of pkg/bag that stores into a map[string]any and type-tests against Tail
+	found := false
+	for _, fn := range c.ModuleFuncs() {
+		if fn.Pkg == nil || core.RelPkg(fn.Pkg.Pkg.Path()) != "pkg/bag" || fn.Blocks == nil {
+			continue
+		}
+		stores, tests := false, false
+		for _, b := range fn.Blocks {
+			for _, in := range b.Instrs {
+				switch x := in.(type) {
+				case *ssa.MapUpdate:
+					if mt, ok := x.Map.Type().Underlying().(*types.Map); ok {
+						if bk, ok := mt.Key().Underlying().(*types.Basic); ok && bk.Kind() == types.String {
+							stores = true
+						}
+					}
+				case *ssa.TypeAssert:
+					if core.IsNamed(x.AssertedType, core.SlipPath, "Tail") {
+						tests = true
+					}
+				}
+			}
+		}
+		if stores && tests {
+			found = true
+		}
+	}
+	r.Decide(found, rule, "pkg/bag|list to map", "-", fmt.Sprintf("a function of pkg/bag builds a string-keyed map under a type test against slip.Tail: %v", found))
 }
